@@ -556,8 +556,15 @@ func fieldOfParam(u *U, f Ref, p *E, name string) *E {
 func selectionSites(c *Ctx, ruleOri, ruleScan string, ihp *ssa.Function) {
 	ihpName := calleeName(ihp)
 	for _, fn := range c.P.AllLibFuncs() {
-		sites := callsTo(fn, ihp)
-		if len(sites) == 0 || fn == ihp {
+		// selections made directly or through a helper that is not part of the vocabulary
+		if fn == ihp || c.P.IsNewHelper(fn) {
+			continue
+		}
+		nDirect := 0
+		for gf := range helperGroup(c.P, fn) {
+			nDirect += len(callsTo(gf, ihp))
+		}
+		if nDirect == 0 {
 			continue
 		}
 		c.Fn(FuncName(fn))
@@ -566,10 +573,17 @@ func selectionSites(c *Ctx, ruleOri, ruleScan string, ihp *ssa.Function) {
 		s := g.Eval(fn)
 		u := g.U
 		loops := loopsOf(fn)
-		for _, site := range sites {
-			call := s.Env[site.(ssa.Value)]
+		nSeen := 0
+		for ci := range s.Effects {
+			cef := &s.Effects[ci]
+			if cef.Kind != "call" || cef.Call.Aux != ihpName {
+				continue
+			}
+			nSeen++
+			site := cef.Ins
+			call := cef.Call
 			key := shortFn(fn) + ": selection by IsHigherPriority"
-			if call == nil || call.Op != "call" || call.Aux != ihpName {
+			if call == nil || call.Op != "call" || call.Aux != ihpName || len(call.Args) < 2 {
 				c.Fail(ruleOri, key, site.Pos(), "UNDECIDED: call not evaluated")
 				continue
 			}
@@ -579,14 +593,23 @@ func selectionSites(c *Ctx, ruleOri, ruleScan string, ihp *ssa.Function) {
 			// (a) store of cand into the location inc was loaded from
 			found := false
 			for _, ef := range s.Effects {
-				if ef.Kind != "store" || ef.Val != cand || ef.Addr.Op != "faddr" {
+				if ef.Kind != "store" || ef.Addr.Op != "faddr" {
+					continue
+				}
+				lc, isLeaf := u.Leaves(ef.Val)[cand]
+				if !isLeaf {
 					continue
 				}
 				if inc.Op != "field" || inc.Aux != ef.Addr.Aux || inc.Args[0] != ef.Addr.Args[0] {
 					continue
 				}
 				found = true
-				c.Check(u.bdd.Implies(ef.Cond, guard), ruleOri, key+" -> "+ef.Addr.Aux, ef.Pos,
+				for leaf := range u.Leaves(ef.Val) {
+					if leaf != cand && leaf != inc {
+						c.Fail(ruleOri, key+" -> "+ef.Addr.Aux, ef.Pos, "the incumbent is replaced by a value other than the candidate: "+clip(u.Show(leaf), 120))
+					}
+				}
+				c.Check(u.bdd.Implies(u.bdd.And(ef.Cond, lc), guard), ruleOri, key+" -> "+ef.Addr.Aux, ef.Pos,
 					"the incumbent is overwritten only when it is nil or candidate.IsHigherPriority(incumbent)",
 					"the incumbent is replaced on a path where it is neither nil nor outranked by the candidate: "+clip(u.ShowBool(u.bdd.And(ef.Cond, u.bdd.Not(guard))), 300))
 			}
@@ -628,7 +651,7 @@ func selectionSites(c *Ctx, ruleOri, ruleScan string, ihp *ssa.Function) {
 				c.Fail(ruleOri, key, site.Pos(), "UNDECIDED: no replacement of the incumbent (the argument of IsHigherPriority) by the candidate (its receiver) found — receiver and argument swapped, or an unrecognised selection shape")
 			}
 			// scan completeness
-			b := site.Block()
+			b := topBlockOf(cef.Act, cef.Ins)
 			l := innermostLoop(loops, b)
 			if l == nil {
 				c.Fail(ruleScan, key+": scan", site.Pos(), "UNDECIDED: the selection is not inside a loop over the candidates")
@@ -666,6 +689,9 @@ func selectionSites(c *Ctx, ruleOri, ruleScan string, ihp *ssa.Function) {
 			c.Check(len(bad) == 0, ruleScan, key+": scan", l.Header.Instrs[0].Pos(),
 				fmt.Sprintf("range over the whole slice; %d early exit(s), none returns a winner", early),
 				strings.Join(bad, "; "))
+		}
+		if nSeen == 0 {
+			c.Fail(ruleOri, shortFn(fn)+": selection by IsHigherPriority", fn.Pos(), "UNDECIDED: the function calls IsHigherPriority but the call was not evaluated")
 		}
 	}
 }
